@@ -47,7 +47,57 @@ func toBuilt(p *world.Party) bool {
 	return true
 }
 
+// genWideBuilt: a built target (and a built provider) with 9-11 values on a side,
+// all looked up by name or type in the callback.
+func genWideBuilt(r *simrt.RNG) world.World {
+	perm := make([]int, world.NumStruct)
+	for i := range perm {
+		perm[i] = i
+	}
+	for i := len(perm) - 1; i > 0; i-- {
+		j := r.Intn(i + 1)
+		perm[i], perm[j] = perm[j], perm[i]
+	}
+	n := 9 + r.Intn(3)
+	var w world.World
+	t := world.Party{InForm: world.FormBuilt, OutForm: world.FormBuilt, HasErr: true}
+	prov := world.Party{InForm: world.FormBuilt, OutForm: world.FormBuilt, HasErr: true}
+	var args []int
+	for i := 0; i < n; i++ {
+		l := world.Label{Type: perm[i]}
+		if r.Bool() {
+			l.Name = fmt.Sprintf("v%d", i)
+		}
+		t.In = append(t.In, world.Slot{Label: l})
+		if i%3 == 0 {
+			// a third of the values come out of the wide provider, the rest are supplied
+			prov.Out = append(prov.Out, world.Slot{Label: l})
+		} else {
+			a := world.ArgSpec{Kind: world.ArgTyped, Label: l}
+			if l.Name != "" {
+				a.Kind, a.Spell = world.ArgNamed, l.Name
+			}
+			w.Args = append(w.Args, a)
+			args = append(args, len(w.Args)-1)
+		}
+	}
+	if r.Bool() {
+		t.Out = append(t.Out, t.In[:1+r.Intn(n)]...)
+	}
+	w.Parties = []world.Party{t, prov}
+	w.Args = append(w.Args, world.ArgSpec{Kind: world.ArgConvFunc, Party: 1})
+	args = append(args, len(w.Args)-1)
+	calls := 1 + r.Intn(3)
+	for i := 0; i < calls; i++ {
+		w.Ops = append(w.Ops, world.Op{Kind: world.OpCall, Target: 0, Args: args, Twin: i + 1})
+	}
+	return w
+}
+
 func (C15) Gen(r *simrt.RNG, tier string) core.Case {
+	if r.Chance(1, 15) {
+		return RCase{W: genWideBuilt(r)}
+	}
 	cfg := world.SwarmCfg(r)
 	world.Deepen(&cfg, r, tier)
 	cfg.Gens = false
